@@ -23,6 +23,18 @@ def main():
         if rp_.get('interpreter') == 'python -O' and sys.flags.optimize == 0:
             # the violation was found in an interpreter started with -O: replay it the same way
             os.execv(sys.executable, [sys.executable, '-O', os.path.abspath(__file__), 'replay', '--replay', a.replay])
+    # last resort: a check that does not come back (an implementation change that blocks for ever outside every guarded
+    # region) is reported, not left hanging
+    import threading
+
+    def _never_came_back(pid=a.pid, tier=tier):
+        sys.stdout.write('VIOLATION property=%s replay=%s no-failing-input-found\n' % (pid, os.path.join(common.EVID, '%s.json' % pid)))
+        sys.stdout.write('%s FAIL tier=%s (the check did not terminate within its time limit)\n' % (pid, tier))
+        sys.stdout.flush()
+        os._exit(1)
+    _wd = threading.Timer(3600 if tier == 'quick' else 6 * 3600, _never_came_back)
+    _wd.daemon = True
+    _wd.start()
     mod = importlib.import_module('check_%s' % a.pid)
     with common.Scratch():
         common.repo_import_setup()
